@@ -42,6 +42,17 @@ theorem fx_every_run (name : String) (f : Fx.Fx) (hm : (name, f) ∈ XmppVerif.G
   have h := List.all_eq_true.mp fx_balanced (name, f) hm
   exact balanced_sound pol f h
 
+/-- The type registry's lookup (`GetExtensionType`, used by every hand-written decoder of stanza/ - C01, C02) does nothing
+but read the two maps under its read lock: it calls nothing, it keeps nothing (a memo that a later `MapExtension` does
+not clear would make a registered extension vanish from parsed stanzas). -/
+theorem registry_lookup_calls_nothing :
+    ((XmppVerif.Gen.Fx.all.lookup "stanza/registry.GetExtensionType").map fun f =>
+      allTraces f fun t => t.all fun a =>
+        match a with
+        | .lock _ | .unlock _ | .deferUnlock _ => true
+        | .call w => w.startsWith "return "
+        | _ => false) = some true := by decide +kernel
+
 /-- not vacuous: the skeleton of sendAndStore does lock the queue, store and write; that of Router.route takes the
 router's lock, removes the entry and hands the response over -/
 theorem fx_not_vacuous :
@@ -59,3 +70,4 @@ end XmppVerif.Tie.Fx
 #print axioms XmppVerif.Tie.Fx.fx_balanced
 #print axioms XmppVerif.Tie.Fx.fx_every_run
 #print axioms XmppVerif.Tie.Fx.fx_not_vacuous
+#print axioms XmppVerif.Tie.Fx.registry_lookup_calls_nothing
